@@ -27,6 +27,9 @@ def poly_trace(ck, which):
             raise vlib.InfraError("driver failed rc=%s %s" % (d["rc"], d["err"][-1500:]))
         ck.trace("needles", "Trace_Poly", "Trace.cfg", tn, nchunks=16 if ck.quick else 48, balance=True, env={"WHICH": "C07"}, timeout=3400,
                  what="needle-thin polygons only (aspect 1:20..1:500, 4-8 vertices, all placements incl. the antimeridian), both centre fills")
+        ck.trace("iterator-order", "Trace_Poly", "Trace.cfg", tl, nchunks=16, balance=True, env={"WHICH": "ORDER"}, timeout=3400, drift=True,
+                 what="output order of polygonToCellsExperimental in all four modes against the iterator model H3PolyIter (strictly "
+                      "increasing index order)")
         which = "C07E"
     ck.trace("polygons", "Trace_Poly", "Trace.cfg", t, nchunks=16 if ck.quick else 48, balance=True, env={"WHICH": which}, timeout=3400,
              what="generated well-formed polygons x resolutions 0..15: convex, star-shaped concave, needles (aspect 1:20..1:500), smaller "
